@@ -403,25 +403,87 @@ pub fn run(cap: u32, start: &str, nalpha: usize, depth: usize, max_states: usize
     res
 }
 
+/// Replays one increment sequence from the empty sketch with the same clauses as
+/// the search (alphabet = the distinct hashes of the sequence).
 pub fn replay(w: &str) -> Vec<Violation> {
     let parts: Vec<&str> = w.split('|').collect();
     let cap: u32 = parts[1].trim_start_matches("cap=").parse().unwrap();
     let seq: Vec<u64> = parts[2].split_whitespace().map(|x| u64::from_str_radix(x, 16).unwrap()).collect();
     println!("sketch capacity {cap}, {} increments", seq.len());
-    let r = catch_unwind(AssertUnwindSafe(|| {
-        let mut s = SketchFacade::new();
-        s.ensure_capacity(cap);
-        for (i, h) in seq.iter().enumerate() {
-            s.increment(*h);
-            let sn = s.snapshot();
-            println!("  #{i} increment({h:x}) -> size={} resets={} estimate={}", sn.size, sn.resets, s.frequency(*h));
-        }
-    }));
-    match r {
-        Ok(()) => vec![],
-        Err(p) => {
-            println!("      VIOLATED C08/C14: panic: {}", panic_msg(&p));
-            vec![Violation { prop: "C14", sig: "sketch:panic".into(), detail: panic_msg(&p), witness: w.to_string() }]
+    let probe = build(cap, &[]);
+    let mut alpha: Vec<u64> = Vec::new();
+    for h in &seq {
+        if !alpha.contains(h) {
+            alpha.push(*h);
         }
     }
+    let feet: Vec<Foot> = alpha.iter().map(|h| foot(&probe, *h)).collect();
+    let mut counts = vec![0u8; alpha.len()];
+    let mut touched = vec![false; alpha.len()];
+    let mut out: Vec<Violation> = Vec::new();
+    let mut push = |out: &mut Vec<Violation>, p: &'static str, sig: String, d: String| {
+        println!("      VIOLATED {p} [{sig}]: {d}");
+        out.push(Violation { prop: p, sig, detail: d, witness: w.to_string() });
+    };
+    let mut s = SketchFacade::new();
+    s.ensure_capacity(cap);
+    for (n, h) in seq.iter().enumerate() {
+        let ai = alpha.iter().position(|x| x == h).unwrap();
+        let before = s.snapshot();
+        let fb: Vec<u8> = alpha.iter().map(|x| s.frequency(*x)).collect();
+        let r = catch_unwind(AssertUnwindSafe(|| s.increment(*h)));
+        if let Err(p) = r {
+            let msg = panic_msg(&p);
+            let short: String = msg.chars().take(50).collect();
+            push(&mut out, "C08", format!("sketch:panic:increment:{short}"), format!("increment panicked: {msg}"));
+            push(&mut out, "C14", format!("sketch:panic:increment:{short}"), format!("aging arithmetic panicked: {msg}"));
+            return out;
+        }
+        let after = s.snapshot();
+        let fa: Vec<u8> = alpha.iter().map(|x| s.frequency(*x)).collect();
+        let aged = after.resets > before.resets;
+        println!("  #{n} increment({h:x}) -> size={} aged={aged} estimates={fa:?}", after.size);
+        let mut rt = RefTable::from_snap(before.table_len, &before.table);
+        let added = rt.inc(&feet[ai]);
+        if aged {
+            rt.halve();
+        }
+        if rt.nib != RefTable::from_snap(after.table_len, &after.table).nib {
+            push(&mut out, "C14", format!("sketch:table-delta:aged={aged}"), "table after increment differs from the reference".into());
+        }
+        let should_age = added && before.size as u64 + 1 >= before.sample_size as u64;
+        if aged != should_age {
+            push(&mut out, "C14", format!("sketch:aging-time:aged={aged}"), format!("size {} sample_size {} added={added}", before.size, before.sample_size));
+        }
+        if after.size >= after.sample_size && after.sample_size > 0 {
+            push(&mut out, "C14", "sketch:size-out-of-range".into(), format!("size {} >= sample_size {}", after.size, after.sample_size));
+            push(&mut out, "C08", "sketch:size-out-of-range".into(), format!("size {} >= sample_size {}", after.size, after.sample_size));
+        }
+        counts[ai] = (counts[ai] + 1).min(15);
+        touched[ai] = true;
+        if aged {
+            for c in counts.iter_mut() {
+                *c >>= 1;
+            }
+        }
+        for (i, f) in fa.iter().enumerate() {
+            if *f > 15 {
+                push(&mut out, "C14", "sketch:estimate-above-15".into(), format!("estimate {f}"));
+            }
+            if *f < counts[i] {
+                push(&mut out, "C14", format!("sketch:underestimate:aged={aged}"), format!("hash #{i} recorded {} times (saturating, halved by aging), estimate {f}", counts[i]));
+            }
+            let alone = feet.iter().enumerate().all(|(j, g)| j == i || !touched[j] || shares(&feet[i], g) == 0);
+            if alone && *f != counts[i] {
+                push(&mut out, "C14", format!("sketch:inexact-without-collision:aged={aged}"), format!("hash #{i} collides with nothing recorded, count {} estimate {f}", counts[i]));
+            }
+            if !aged && *f < fb[i] {
+                push(&mut out, "C14", "sketch:estimate-dropped-without-aging".into(), format!("estimate of hash #{i} fell from {} to {f}", fb[i]));
+            }
+        }
+        if !aged && fa[ai] != (fb[ai] + 1).min(15) {
+            push(&mut out, "C14", "sketch:increment-not-counted".into(), format!("estimate {} -> {}", fb[ai], fa[ai]));
+        }
+    }
+    out
 }
